@@ -7,6 +7,8 @@ import Dawgs.Model.SqlEval
 import Dawgs.Model.GraphGen
 import Dawgs.Model.C01
 import Dawgs.Model.C01S2
+import Dawgs.Model.C01Chain
+import Dawgs.Model.C01Count
 /-! C01 semantic-search driver (suite `c01sem`, also used by C02).
 
 Input: `sem <gseed> <nrandom> <exN> <exE> <kindmap> <params> <cypher sexp> <sql sexp>` — the parsed Cypher model and the REAL emitted
@@ -190,6 +192,14 @@ def explain (g : Graph) (km : KindMap) (q : Cy.Query) (ordered : Bool) (bagCols 
         | some ns => ns
         | none => []
 
+/-- a path with its node and relationship lists reversed; a list of nodes / of relationships (nodes(p), relationships(p)) reversed -/
+def revPathTop : RVal → RVal
+  | .path ns rs => .path ns.reverse rs.reverse
+  | .list xs =>
+    if !xs.isEmpty && (xs.all (fun x => match x with | .node .. => true | _ => false) || xs.all (fun x => match x with | .rel .. => true | _ => false))
+    then .list xs.reverse else .list xs
+  | v => v
+
 def compareOn (km : KindMap) (params : List (String × Val)) (q : Cy.Query) (s : Stmt) (ordered : Bool) (bagCols : List Nat) (g : Graph) : Outcome :=
   match Cy.evalKeyed Cy.Quirks.none g q with
   | .error w => .unmodelledCy w
@@ -211,6 +221,10 @@ def compareOn (km : KindMap) (params : List (String × Val)) (q : Cy.Query) (s :
         let srS := sr.map (canonBags bagCols)
         let ex := if ex.isEmpty && !crS.isEmpty && crS.all (fun r => srS.any (rowEq r)) && srS.all (fun r => crS.any (rowEq r))
           then ["multiplicity-only"] else ex
+        -- not a deviation switch of the reference semantics but a recognisable symptom: the SQL rows are the Cypher rows with every path
+        -- (and every nodes(p) / relationships(p) list) in REVERSE order — the path was materialised in the optimiser's drive direction
+        let crRev := cr.map (fun r => canonBags bagCols (r.map revPathTop))
+        let ex := if ex.isEmpty && !(bagEq crRev crS) && bagEq crRev srS then ["path-in-reverse-order"] else ex
         .differ ex s!"graph={renderGraph g} cy={(renderRows cr).replace " " "_"} sql={(renderRows sr).replace " " "_"}"
 
 def kindMapOf : Sexp → Option KindMap
@@ -377,7 +391,11 @@ def tieStep (_ : Unit) (ts : List String) : Unit × String :=
           | some s1 => some ("S1", s1.toCy == q, s1.wf)
           | none => match C01.ofCy2 q with
             | some s2 => some ("S2b", s2.toCy == q, s2.wf)
-            | none => none
+            | none => match C01.ofCyChain q with
+              | some ch => some ("S2c", ch.toCy == q, ch.wf)
+              | none => match C01.ofCyCount1 q with
+                | some c1 => some ("S1c", c1.toCy == q, true)
+                | none => none
         match stage with
         | none => ((), "outside-fragment")
         | some (stg, reading, wf) =>
@@ -385,7 +403,7 @@ def tieStep (_ : Unit) (ts : List String) : Unit × String :=
           if !wf then ((), "outside-fragment not-well-formed-for-" ++ stg) else
           -- the hop's join order is the translator's choice (selectivity heuristic over its Go tree): the real statement must be the
           -- model statement for ONE of the two orders; `dir` records whether it is the order the model's approximation picks
-          let cands := [C01.tr2F (fun _ => false) km q, C01.tr2F (fun _ => true) km q].filterMap id
+          let cands := [C01.tr4F (fun _ => false) (fun _ => false) true km q, C01.tr4F (fun _ => true) (fun _ => true) true km q].filterMap id
           match cands with
           | [] => ((), "tie-differs model-translator-rejects-a-translated-query")
           | (st0, ps) :: _ =>
@@ -393,13 +411,13 @@ def tieStep (_ : Unit) (ts : List String) : Unit × String :=
             if !(cands.any (fun c => c.1 == s)) then
               ((), "tie-differs model=" ++ ((toString (repr st0)).replace "\n" " ").replace " " "_" ++ " real=" ++ ((toString (repr s)).replace "\n" " ").replace " " "_")
             else
-              let dir := if (C01.tr2 km q).map (·.1) == some s then "model" else "other"
+              let dir := if (C01.tr2 km q).map (·.1) == some s then "model" else (if cands.head?.map (·.1) == some s then "unflipped" else "flipped")
               match gs.toNat?, nr.toNat?, en.toNat?, ee.toNat? with
               | some gseed, some nrandom, some exN, some exE =>
                 let graphs := graphsFor gseed nrandom exN exE
                 let ordered := !q.ret.orderBy.isEmpty
                 -- the hypothesis of the stage's theorem: `GraphOK` for S1, `GraphOK2` for S2b
-                let hypB := fun (g : Graph) => if stg == "S1" then C01.graphOKb km g else C01.graphOK2b km g
+                let hypB := fun (g : Graph) => if stg == "S1" || stg == "S1c" then C01.graphOKb km g else C01.graphOK2b km g
                 let inHyp := graphs.filter hypB
                 let outHyp := graphs.filter (fun g => !hypB g)
                 let outsIn := inHyp.map (compareOn km [] q s ordered [])
